@@ -1,9 +1,9 @@
 SPEC_PART = dict(
     props_file="C12_cpc",
     legs=[dict(family="cpc", focus="codec", oracles=["layout_ok", "prop_ok"], profiles=["debug"], n_quick=None, n_thorough=None,
-               mask=[0, 1, 2, 3, 4, 5, 6, 7, 8, 18]),
+               mask=[0, 1, 2, 3, 4, 5, 6, 7, 8, 18], panic_is_violation=True),
           dict(family="cpc", focus="union", oracles=["union_ok"], profiles=["debug"], n_quick=20, n_thorough=150,
-               mask=[10, 11, 12, 13, 14, 15, 16, 20, 21, 22, 23])],
+               mask=[10, 11, 12, 13, 14, 15, 16, 20, 21, 22, 23], panic_is_violation=True)],
     trusted=["cpc image layout = my reading of the Java/C++ CPC format (DESIGN.md Appendix A; Spec/CpcLayout.v): eight formats "
              "selected by the HIP/SV/WINDOW flag bits with the fixed preamble-int table [2,2,4,8,4,8,6,10] and the published field "
              "order; the two compressed streams are opaque word lists at this level (no Java/C++ generated CPC files are "
